@@ -409,6 +409,9 @@ func (f *frame) storeTo(cur *State, a Sym, v Sym, pos token.Pos) {
 	vc := f.vc
 	switch ad := a.(type) {
 	case adv:
+		if strings.HasPrefix(ad.base, "G:") && vc.eng.db.ConstGlobals[strings.TrimPrefix(ad.base, "G:")] && !f.specMode {
+			vc.oblige(cur, "FRAME", "constglobal["+f.srcLabel(pos)+"]", "false", f.where(pos), "store to a package variable declared constant")
+		}
 		f.frameCheck(cur, ad, pos)
 		vc.store(cur, ad, v)
 	case sv:
@@ -508,6 +511,22 @@ func (f *frame) nameLoaded(x *ssa.UnOp, v Sym, cur *State) Sym {
 }
 
 func (vc *VC) knownGlobal(base string) (Sym, bool) {
+	name := strings.TrimPrefix(base, "G:")
+	if vc.eng.db.ConstGlobals[name] {
+		if t, ok := vc.eng.globalType(name); ok {
+			if sort := vc.eng.sortOf(t); sort != "" {
+				c := "cg_" + sanitize(name)
+				if !vc.declared[c] {
+					vc.declared[c] = true
+					vc.emit(fmt.Sprintf("(declare-const %s %s)", c, sort))
+					if _, isP := t.Underlying().(*types.Pointer); isP {
+						vc.emit(fmt.Sprintf("(assert (and (> %s 0) (< %s %s)))", c, c, vc.entry.alloc))
+					}
+				}
+				return sv{c}, true
+			}
+		}
+	}
 	switch base {
 	case "G:LNil":
 		return sv{"LNilV"}, true
